@@ -61,6 +61,9 @@ class Bad:
         self.nontrivial = False
         self.key = ''
         self.what = ''
+        self.setup: Optional[Callable[[], Any]] = None      # a legal call made first (e.g. one that consumes a free node)
+        self.followup: Optional[Callable[[], Any]] = None   # a legal call made after the refusal (e.g. the retry without the offending value)
+        self.followup_what = ''
 
 
 def resolve_bad(root: Any, other: Any, op: dict) -> Bad:
@@ -125,8 +128,61 @@ def resolve_bad(root: Any, other: Any, op: dict) -> Bad:
                 b.call = lambda: w.__setitem__(op.get('key', 'zz'), node)
             else:
                 raise OPS.NotApplicable(name)
+            if fresh and pos > 0 and name in ('extend', 'iadd', 'setslice') and p.kind in ('list', 'clist', 'fview', 'rawmeta'):
+                # what a caller does next: the same call without the offending value - the free node in front of it must still be usable
+                b.followup = lambda: w.append(fresh[0])
+                b.followup_what = f'{type(P).__name__}.{p.name}.append(the free {type(fresh[0]).__name__} that preceded the refused value)'
         else:
             raise OPS.NotApplicable(p.kind)
+        return b
+    if k == 'dupbatch':
+        # the same free node twice in one batch: its second occurrence already lives elsewhere when it is inserted
+        dst = op['dst']
+        P = OPS.find_model(root, dst['cls'], dst['mi'], idx)
+        p = S.prop(P, dst['prop'])
+        x = OPS._donor(op['fresh'][0])
+        w = getattr(P, p.name)
+        n = len(w)
+        name = dst.get('op', 'extend')
+        b.cls, b.must_raise, b.key = 'a:attached', True, f'duplicate-in-batch:{p.kind}:{name}'
+        b.what = f'{type(P).__name__}.{p.name} {name} with the same free {type(x).__name__} twice'
+        b.nontrivial = True
+        if name == 'extend':
+            b.call = lambda: w.extend([x, x])
+        elif name == 'iadd':
+            def call2() -> None:
+                ww = w
+                ww += [x, x]
+            b.call = call2
+        elif name == 'setslice':
+            i = dst.get('i', 0)
+            b.call = lambda: w.__setitem__(slice(i, dst.get('j')), [x, x])
+        elif name == 'setext':
+            if n < 3:
+                raise OPS.NotApplicable('too short')
+            b.call = lambda: w.__setitem__(slice(0, 3, 2), [x, x])
+        else:
+            raise OPS.NotApplicable(name)
+        return b
+    if k == 'consumed':
+        # a free node is legally moved into one model; using the same object again as a value elsewhere must be refused
+        dst = op['dst']
+        ms = idx.get(dst['cls'], [])
+        if len(ms) < 2:
+            raise OPS.NotApplicable('needs two models of the class')
+        P1 = ms[dst['mi'] % len(ms)]
+        P2 = ms[(dst['mi'] + 1 + op.get('sel', 0) % (len(ms) - 1)) % len(ms)]
+        p = S.prop(P1, dst['prop'])
+        x = OPS._donor(op['fresh'][0])
+        if p.kind in ('opt', 'req', 'copt', 'uopt'):
+            b.setup = lambda: setattr(P1, p.name, x)
+            b.call = lambda: setattr(P2, p.name, x)
+        else:
+            b.setup = lambda: getattr(P1, p.name).append(x)
+            b.call = lambda: getattr(P2, p.name).append(x)
+        b.cls, b.must_raise, b.key = 'a:attached', True, f'consumed-node-reused:{p.kind}'
+        b.what = f'{type(P2).__name__}.{p.name} given the {type(x).__name__} that was just moved into another {type(P1).__name__}'
+        b.nontrivial = True
         return b
     if k == 'wholefield':
         # model.raw_xs = other_model.raw_xs : the list still lives in the other model
@@ -345,6 +401,13 @@ def run_case(case: dict) -> Result:
                 b = resolve_bad(root, other, op)
             except OPS.NotApplicable:
                 continue
+            if b.setup is not None:
+                try:
+                    b.setup()
+                except Exception:  # noqa: BLE001 - the legal first step is not this property's subject
+                    continue
+                if O.invariants(root):
+                    continue
             before, before2 = O.Snapshot(root), O.Snapshot(other)
             vbefore = public_views(root) + public_views(other)
             raised: Optional[BaseException] = None
@@ -365,6 +428,21 @@ def run_case(case: dict) -> Result:
                     vd = views_diff(vbefore, public_views(root) + public_views(other))
                     if vd:
                         res.bad(f'views-changed-after-refusal:{b.key}', f'{b.what} raised {raised!r} but what the models show changed: {vd}')
+                if b.followup is not None and not res.violations:
+                    # the history goes on: a legal call with the values the refused call did not object to
+                    classes.add('retry-after-refusal')
+                    try:
+                        b.followup()
+                    except common.REFUSAL:
+                        d = before.diff(O.Snapshot(root))
+                        if d:
+                            res.bad(f'changed-after-refusal:retry:{b.key}', f'{b.followup_what} after the refusal raised and changed the document: {d}')
+                    except Exception as e:  # noqa: BLE001
+                        res.bad(f'retry-crashed:{b.key}:{type(e).__name__}', f'{b.followup_what} after the refused {b.what} raised {e!r}')
+                    else:
+                        inv = O.invariants(root)
+                        if inv:
+                            res.bad(f'retry-corrupts:{b.key}', f'{b.followup_what} after the refused {b.what} was accepted and left {inv[:2]}; printed {O.print_text(root)!r}')
             elif b.must_raise:
                 bad = O.invariants(root) + O.invariants(other)
                 d1 = before2.diff(O.Snapshot(other))
@@ -436,6 +514,15 @@ def _gen_bad(g: L.G, root: Any) -> Optional[dict]:
         nfresh = 0
         if p.kind in ('list', 'clist') and g.p(0.15):
             return {'f': 'bad', 'k': 'wholefield', 'dst': dst, 'sel': g.n(0, 50), 'src_other': g.p(0.4)}
+        if p.kind in ('list', 'clist', 'fview', 'rawmeta') and g.p(0.15):
+            n = len(getattr(m, p.name))
+            name = g.pick(['extend', 'iadd', 'setslice', 'setext'])
+            if name == 'setslice':
+                dst['i'], dst['j'], _ = OPS.gen_slice(g, n)
+            dst['op'] = name
+            return {'f': 'bad', 'k': 'dupbatch', 'dst': dst, 'fresh': [OPS.donor_for(g, m, p)]}
+        if p.kind in ('opt', 'req', 'copt', 'uopt', 'list', 'clist') and g.p(0.15):
+            return {'f': 'bad', 'k': 'consumed', 'dst': dst, 'fresh': [OPS.donor_for(g, m, p)], 'sel': g.n(0, 9)}
         if p.kind in ('list', 'clist', 'fview', 'rawmeta'):
             n = len(getattr(m, p.name))
             name = g.pick(['append', 'insert', 'set', 'setslice', 'setslice', 'setext', 'extend', 'extend', 'iadd'] + (['mapset'] if p.kind == 'rawmeta' else []))
@@ -553,6 +640,13 @@ def _enum_attached():
             if count[key] >= 2:
                 continue
             count[key] += 1
+            if p.kind in ('list', 'clist', 'fview', 'rawmeta'):
+                for name in ('extend', 'setslice', 'setext'):
+                    yield {'dirs': chunks, 'dirs2': chunks, 'ops': [{'f': 'bad', 'k': 'dupbatch', 'dst': {'cls': cname, 'mi': mi, 'prop': p.name, 'op': name, 'i': 0, 'j': 1},
+                                                                     'fresh': [OPS.donor_for(g, m, p)]}]}
+            if p.kind in ('opt', 'req', 'copt', 'uopt', 'list', 'clist'):
+                yield {'dirs': chunks + chunks, 'dirs2': chunks, 'ops': [{'f': 'bad', 'k': 'consumed', 'dst': {'cls': cname, 'mi': mi, 'prop': p.name},
+                                                                          'fresh': [OPS.donor_for(g, m, p)], 'sel': 0}]}
             if p.kind in ('list', 'clist'):
                 for src_other in (False, True):
                     yield {'dirs': chunks + chunks, 'dirs2': chunks, 'ops': [{'f': 'bad', 'k': 'wholefield', 'dst': {'cls': cname, 'mi': mi, 'prop': p.name},
